@@ -43,6 +43,14 @@ def gen_case(rnd):
         expr = None if (agg in ("count", "count_distinct") and rnd.random() < 0.4) else sg.gen_num(rnd)
         filt = [sg.gen_pred(rnd) for _ in range(rnd.choice([0, 0, 1, 2]))]
         mets.append((agg, expr, filt))
+    if rnd.random() < 0.2 and rows:
+        # a count_distinct over the KEY column itself, on a table where the declared key is not unique (re-delivered rows, UNION ALL sources):
+        # the metric is the number of distinct values in the group, whatever the layer believes about the column
+        mets.append(("count_distinct", sg.col(sg.ID), []))
+        for _ in range(rnd.randint(1, 3)):
+            a, b = rnd.randrange(len(rows)), rnd.randrange(len(rows))
+            rows[a][sg.ID] = rows[b][sg.ID]
+        mets = mets[-4:]
     filters = [sg.gen_pred(rnd) for _ in range(rnd.choice([0, 0, 1, 2, 3]))]
     # filters that name a COMPUTED dimension of the query (not its columns) under an operator that binds tighter than the top operator of
     # the dimension's own expression: the dimension's value is what must be compared, however the layer gets the reference evaluated
